@@ -41,14 +41,18 @@ func (k Keeper) DivvyingTips(ctx context.Context, reporterAddr sdk.AccAddress, r
 		return err
 	}
 
+	// the commission is credited to the reporter exactly once, even when the reporter has
+	// several token origins (delegations to several validators) or none of its own
+	commissionPaid := false
 	for _, del := range delAddrs.TokenOrigins {
 		// delegator share = netReward * selector's share / total shares
 		delAmountDec := del.Amount.ToLegacyDec()
 		delTotalDec := delAddrs.Total.ToLegacyDec()
 		delegatorShare := netReward.Mul(delAmountDec).Quo(delTotalDec)
 
-		if bytes.Equal(del.DelegatorAddress, reporterAddr.Bytes()) {
+		if bytes.Equal(del.DelegatorAddress, reporterAddr.Bytes()) && !commissionPaid {
 			delegatorShare = delegatorShare.Add(commission)
+			commissionPaid = true
 		}
 		// get selector's previous tips
 		oldTips, err := k.SelectorTips.Get(ctx, del.DelegatorAddress)
@@ -66,6 +70,18 @@ func (k Keeper) DivvyingTips(ctx context.Context, reporterAddr sdk.AccAddress, r
 		if err != nil {
 			return err
 		}
+	}
+
+	if !commissionPaid && !commission.IsZero() {
+		oldTips, err := k.SelectorTips.Get(ctx, reporterAddr.Bytes())
+		if err != nil {
+			if errors.Is(err, collections.ErrNotFound) {
+				oldTips = math.LegacyZeroDec()
+			} else {
+				return err
+			}
+		}
+		return k.SelectorTips.Set(ctx, reporterAddr.Bytes(), oldTips.Add(commission))
 	}
 
 	return nil
